@@ -45,19 +45,32 @@ FoldIv(vals, n, kn, kd) == IF n = 1 THEN vals[1] ELSE MinIv(FoldIv(vals, n - 1, 
 
 \* ---------------------------------------------------------------- the two evaluations
 UnionAll(es, p, kn, kd) == FoldIv([i \in 1..Len(es) |-> ValIv(es[i], p)], Len(es), kn, kd)
-\* UnionSDF2.Evaluate as written: interval of every bounding box (Box2.MinMaxDist2 as written); the
-\* FIRST operand with the smallest minimum; operands whose interval overlaps its interval are kept.
+\* UnionSDF2.Evaluate as written (sdf/sdf2.go after the repair of the loose-box pruning): with a blend installed every
+\* operand is evaluated; otherwise the minimum squared distance to every bounding box (Box2.MinMaxDist2 as written), the
+\* FIRST operand with the smallest one is evaluated first, then, in index order, an operand is skipped when its box is
+\* no closer than the minimum found so far (d > 0: mind2 >= d^2; d <= 0: mind2 > 0).  Values are intervals: an operand
+\* is skipped in the model only when the code certainly skips it for every real value in the interval.
 BoxIvs(es, p) == [i \in 1..Len(es) |-> MinMaxCode2(BBlo(es[i]), BBhi(es[i]), p)]
 MinIndex(vs) == CHOOSE i \in 1..Len(vs) :
                   (\A i2 \in 1..Len(vs) : vs[i][1] <= vs[i2][1]) /\ (\A i3 \in 1..(i - 1) : vs[i3][1] > vs[i][1])
-Kept(es, p) == LET vs == BoxIvs(es, p)  mi == MinIndex(vs)
-               IN {i \in 1..Len(es) : i = mi \/ OverlapCode(vs[mi], vs[i])}
-RECURSIVE SubSeq2(_, _, _)
-SubSeq2(vals, K, n) == IF n = 0 THEN <<>> ELSE
-                       IF n \in K THEN SubSeq2(vals, K, n - 1) \o <<vals[n]>> ELSE SubSeq2(vals, K, n - 1)
+RECURSIVE PruneFold(_, _, _, _, _)
+PruneFold(vals, vs, mi, d, i) ==
+  IF i > Len(vals) THEN d
+  ELSE IF i = mi THEN PruneFold(vals, vs, mi, d, i + 1)
+  ELSE LET skipPos == d[1] > 0 /\ S * S * vs[i][1] >= d[2] * d[2]
+           skipNeg == d[2] <= 0 /\ vs[i][1] > 0
+       IN IF skipPos \/ skipNeg THEN PruneFold(vals, vs, mi, d, i + 1)
+          ELSE PruneFold(vals, vs, mi, MinIv(d, vals[i], 0, 1), i + 1)
 UnionPruned(es, p, kn, kd) ==
-  LET kv == SubSeq2([i \in 1..Len(es) |-> ValIv(es[i], p)], Kept(es, p), Len(es))
-  IN FoldIv(kv, Len(kv), kn, kd)
+  IF kn # 0 THEN UnionAll(es, p, kn, kd)
+  ELSE LET vals == [i \in 1..Len(es) |-> ValIv(es[i], p)]
+           vs == BoxIvs(es, p)
+           mi == MinIndex(vs)
+       IN PruneFold(vals, vs, mi, vals[mi], 1)
+\* the rule before the repair (kept for reference: it needs the value of the nearest-box operand to be at most the
+\* farthest distance of its box, which fails for an operand whose box is not tight, e.g. a cut that removed everything)
+KeptOld(es, p) == LET vs == BoxIvs(es, p)  mi == MinIndex(vs)
+                  IN {i \in 1..Len(es) : i = mi \/ OverlapCode(vs[mi], vs[i])}
 
 SignIv(iv) == IF iv[2] < 0 THEN 0 - 1 ELSE IF iv[1] > 0 THEN 1 ELSE 0
 \* model-level property at one point: with the default minimum the pruned result is not certainly
